@@ -13,8 +13,11 @@
 // integer comparisons, key comparisons (`a < b`, `a > b`, `a <= b`, `a >= b` on the builtin
 // types, `a.Less(b)` on Comparable) and && || ! with Go's short-circuit evaluation.
 //
-// Semantics of the output: Go `int` becomes Lean `Int` (no wrap-around: the overflow of
-// `lo + hi` needs a slice of more than 2^62 elements); an index outside the slice is
+// Semantics of the output: Go `int` is the 64-bit two's complement integer of the supported
+// targets: values are Lean `Int`s and the result of every + - * << and unary - is wrapped into
+// [-2^63, 2^63) by `w64` (`>>` is the arithmetic shift and cannot overflow), so the famous
+// overflow of `(lo + hi) >> 1` is IN the translation and the theorems carry the hypothesis that
+// excludes it (`len(values) < 2^62`); an index outside the slice is
 // `.error "index"`; every jump to the label consumes one unit of fuel and running out of it
 // is `.error "fuel"` (termination is therefore part of the theorem, not assumed); key
 // comparisons go through the parameter `lt` — so the translation itself establishes that the
@@ -96,16 +99,16 @@ func (f *fn) intE(e ast.Expr) string {
 		bad("unsupported call in integer expression")
 	case *ast.UnaryExpr:
 		if x.Op == token.SUB {
-			return "(-" + f.intE(x.X) + ")"
+			return "(w64 (-" + f.intE(x.X) + "))"
 		}
 	case *ast.BinaryExpr:
 		switch x.Op {
 		case token.ADD:
-			return "(" + f.intE(x.X) + " + " + f.intE(x.Y) + ")"
+			return "(w64 (" + f.intE(x.X) + " + " + f.intE(x.Y) + "))"
 		case token.SUB:
-			return "(" + f.intE(x.X) + " - " + f.intE(x.Y) + ")"
+			return "(w64 (" + f.intE(x.X) + " - " + f.intE(x.Y) + "))"
 		case token.MUL:
-			return "(" + f.intE(x.X) + " * " + f.intE(x.Y) + ")"
+			return "(w64 (" + f.intE(x.X) + " * " + f.intE(x.Y) + "))"
 		case token.SHR, token.SHL:
 			lit, ok := x.Y.(*ast.BasicLit)
 			if !ok || lit.Kind != token.INT {
@@ -114,7 +117,7 @@ func (f *fn) intE(e ast.Expr) string {
 			if x.Op == token.SHR {
 				return "(" + f.intE(x.X) + " >>> (" + lit.Value + " : Nat))"
 			}
-			return "(" + f.intE(x.X) + " <<< (" + lit.Value + " : Nat))"
+			return "(w64 (" + f.intE(x.X) + " <<< (" + lit.Value + " : Nat)))"
 		}
 	}
 	bad("unsupported integer expression %T", e)
